@@ -794,9 +794,9 @@ func Origins(v ssa.Value) []Root {
 		case *ssa.Const:
 			add("const", constString(x), x)
 		case *ssa.Parameter:
-			add("param", x.Name(), x)
+			add("param", canonParamName(x), x)
 		case *ssa.FreeVar:
-			add("freevar", x.Name(), x)
+			add("freevar", canonFreeVarName(x), x)
 		case *ssa.Global:
 			add("global", x.Name(), x)
 		case *ssa.Call:
@@ -843,7 +843,7 @@ func Origins(v ssa.Value) []Root {
 				case *ssa.IndexAddr:
 					add("index", originSummary(a.X), x)
 				case *ssa.FreeVar:
-					add("freevar", a.Name(), a)
+					add("freevar", canonFreeVarName(a), a)
 				case *ssa.Global:
 					add("global", a.Name(), a)
 				default:
@@ -886,7 +886,7 @@ func fieldDesc(t types.Type, idx int) string {
 	}
 	if s, ok := t.Underlying().(*types.Struct); ok && idx < s.NumFields() {
 		_, n := recvTypeName(t)
-		return n + "." + s.Field(idx).Name()
+		return n + "." + canonFieldName(t, s, idx)
 	}
 	return fmt.Sprintf("field#%d", idx)
 }
@@ -963,7 +963,7 @@ func (p *Prog) FieldAccesses(pkg, typ, field string) []FieldAccess {
 				return
 			}
 			st, ok := xt.Underlying().(*types.Struct)
-			if !ok || idx >= st.NumFields() || st.Field(idx).Name() != field {
+			if !ok || idx >= st.NumFields() || canonFieldName(xt, st, idx) != field {
 				return
 			}
 			out = append(out, FieldAccess{In: in, Fn: f, Write: accessWrites(in.(ssa.Value)), Base: base})
@@ -1040,7 +1040,7 @@ func fieldName(t types.Type, idx int) string {
 		t = p.Elem()
 	}
 	if s, ok := t.Underlying().(*types.Struct); ok && idx < s.NumFields() {
-		return s.Field(idx).Name()
+		return canonFieldName(t, s, idx)
 	}
 	return fmt.Sprintf("#%d", idx)
 }
@@ -2178,8 +2178,8 @@ func rootDeep(rt Root, depth int) string {
 		for i, hp := range h.Params {
 			if i < len(c.Call.Args) {
 				a := originDeep(c.Call.Args[i], depth-1)
-				o = strings.ReplaceAll(o, "(param:"+hp.Name()+")", "("+a+")")
-				o = strings.ReplaceAll(o, "param:"+hp.Name(), a)
+				o = strings.ReplaceAll(o, "(param:"+canonParamName(hp)+")", "("+a+")")
+				o = strings.ReplaceAll(o, "param:"+canonParamName(hp), a)
 			}
 		}
 		outs = append(outs, o)
@@ -2226,7 +2226,7 @@ func (r *Report) lockFor(pkg, typ, dataField, lockField string) string {
 	mutexes := map[string]bool{}
 	for i := 0; i < st.NumFields(); i++ {
 		if isMutex(st.Field(i).Type()) {
-			mutexes[st.Field(i).Name()] = true
+			mutexes[canonFieldName(m.Type(), st, i)] = true
 		}
 	}
 	if mutexes[lockField] || len(mutexes) == 0 {
@@ -2277,7 +2277,7 @@ func (r *Report) structMutexes(pkg, typ string) map[string]bool {
 	for i := 0; i < st.NumFields(); i++ {
 		switch strings.TrimPrefix(st.Field(i).Type().String(), "*") {
 		case "sync.Mutex", "sync.RWMutex":
-			out[st.Field(i).Name()] = true
+			out[canonFieldName(m.Type(), st, i)] = true
 		}
 	}
 	return out
